@@ -6,4 +6,7 @@ From WT Require Import Base.Wrap Base.ListX Base.Bytes Model.Time Model.Ring Mod
   Model.Codec Model.Handle Inst.FloatInst.
 Extraction "wtmodel.ml"
   create sync reopen h_update h_update_many h_fetch h_dfetch h_raw series_times
+  enc_ts enc_dur enc_val enc_point enc_points enc_series enc_ainfo enc_header
+  dec_ts dec_dur dec_val dec_point dec_points_msg dec_series dec_ainfo dec_header
+  new_header expected_file_size
   flocq_fops.
